@@ -8,76 +8,85 @@ variable {α : Type}
 
 /-! ### the translated methods against a one-cell specification -/
 
-theorem get_spec (dp : Nat → Option α) (c : Nat) (s : Slot α) :
-    tlGet dp c s = some (match s with
-      | some (some v) => (s, c, some v)
-      | _ => (some (dp c), c + 1, dp c)) := by
+theorem get_spec (dp : Nat → Option (Option α)) (c : Nat) (s : Slot α) :
+    tlGet dp c s = (match s with
+      | some (some v) => (s, c, some (some v))
+      | _ => match dp c with
+        | some d => (some d, c + 1, some d)
+        | none => (s, c + 1, none)) := by
   cases s with
-  | none => simp [tlGet]
-  | some w => cases w <;> simp [tlGet]
+  | none => cases h : dp c <;> simp [tlGet, h]
+  | some w => cases w with
+    | none => cases h : dp c <;> simp [tlGet, h]
+    | some x => simp [tlGet]
 
-theorem set_spec (dp : Nat → Option α) (v : Option α) (c : Nat) (s : Slot α) :
-    tlSet dp v c s = some (some v, c, ()) := by
+theorem set_spec (dp : Nat → Option (Option α)) (v : Option α) (c : Nat) (s : Slot α) :
+    tlSet dp v c s = (some v, c, some ()) := by
   simp [tlSet]
 
-theorem clear_spec (dp : Nat → Option α) (c : Nat) (s : Slot α) :
-    tlClear dp c s = some (none, c, ()) := by
+theorem clear_spec (dp : Nat → Option (Option α)) (c : Nat) (s : Slot α) :
+    tlClear dp c s = (none, c, some ()) := by
   cases s <;> simp [tlClear]
 
-theorem isSet_spec (dp : Nat → Option α) (c : Nat) (s : Slot α) :
-    tlIsSet dp c s = some (s, c, s.isSome) := by
+theorem isSet_spec (dp : Nat → Option (Option α)) (c : Nat) (s : Slot α) :
+    tlIsSet dp c s = (s, c, some s.isSome) := by
   simp [tlIsSet]
 
-theorem valueGet_spec (dp : Nat → Option α) (c : Nat) (s : Slot α) : tlValueGet dp c s = tlGet dp c s := by
+theorem valueGet_spec (dp : Nat → Option (Option α)) (c : Nat) (s : Slot α) : tlValueGet dp c s = tlGet dp c s := by
   simp [tlValueGet]
 
-theorem valueSet_spec (dp : Nat → Option α) (v : Option α) (c : Nat) (s : Slot α) :
-    tlValueSet dp v c s = some (some v, c, ()) := by
+theorem valueSet_spec (dp : Nat → Option (Option α)) (v : Option α) (c : Nat) (s : Slot α) :
+    tlValueSet dp v c s = (some v, c, some ()) := by
   simp [tlValueSet, tlSet]
 
 /-- `get` hands out the object it leaves in the store -/
-theorem get_returns_stored (dp : Nat → Option α) (c c' : Nat) (s s' : Slot α) (v : Option α)
-    (h : tlGet dp c s = some (s', c', v)) : s' = some v := by
+theorem get_returns_stored (dp : Nat → Option (Option α)) (c c' : Nat) (s s' : Slot α) (v : Option α)
+    (h : tlGet dp c s = (s', c', some v)) : s' = some v := by
   rw [get_spec] at h
   cases s with
-  | none => simp at h; rw [← h.1, h.2.2]
+  | none => cases hd : dp c <;> simp [hd] at h; rw [← h.1, h.2.2]
   | some w =>
     cases w with
-    | none => simp at h; rw [← h.1, h.2.2]
+    | none => cases hd : dp c <;> simp [hd] at h; rw [← h.1, h.2.2]
     | some x => simp at h; rw [← h.1, ← h.2.2]
 
 /-! ### `opStep` in closed form -/
 
 variable [DecidableEq α]
 
-theorem opStep_get (dp : Nat → Option α) (c : Nat) (s : Slot α) :
+theorem opStep_get (dp : Nat → Option (Option α)) (c : Nat) (s : Slot α) :
     opStep dp c s .get = (match s with
       | some (some v) => (s, c, Res.val (some v))
-      | _ => (some (dp c), c + 1, Res.val (dp c))) := by
+      | _ => match dp c with
+        | some d => (some d, c + 1, Res.val d)
+        | none => (s, c + 1, Res.raised)) := by
   simp only [opStep, get_spec]
   cases s with
-  | none => rfl
-  | some w => cases w <;> rfl
+  | none => cases h : dp c <;> rfl
+  | some w => cases w with
+    | none => cases h : dp c <;> rfl
+    | some x => rfl
 
-theorem opStep_update (dp : Nat → Option α) (c : Nat) (s : Slot α) (f : α → α) :
+theorem opStep_update (dp : Nat → Option (Option α)) (c : Nat) (s : Slot α) (f : α → α) :
     opStep dp c s (.update f) = (match s with
       | some (some v) => (some (some (f v)), c, Res.unit)
       | _ => match dp c with
-        | some d => (some (some (f d)), c + 1, Res.unit)
-        | none => (some none, c + 1, Res.raised)) := by
+        | some (some d) => (some (some (f d)), c + 1, Res.unit)
+        | some none => (some none, c + 1, Res.raised)
+        | none => (s, c + 1, Res.raised)) := by
   simp only [opStep, get_spec]
   cases s with
-  | none => cases h : dp c <;> simp
+  | none => rcases h : dp c with _ | _ | d <;> simp
   | some w =>
     cases w with
-    | none => cases h : dp c <;> simp
+    | none => rcases h : dp c with _ | _ | d <;> simp
     | some x => simp
 
 /-- with a provider that always returns the same value, the slot and the result of an operation do not depend on the
     provider's call counter -/
 theorem opStep_const (d : Option α) (c c' : Nat) (s : Slot α) (op : Op α) :
-    (opStep (fun _ => d) c s op).1 = (opStep (fun _ => d) c' s op).1 ∧
-    (opStep (fun _ => d) c s op).2.2 = (opStep (fun _ => d) c' s op).2.2 := by
+    (opStep (fun _ => some d) c s op).1 = (opStep (fun _ => some d) c' s op).1 ∧
+    (opStep (fun _ => some d) c s op).2.2 = (opStep (fun _ => some d) c' s op).2.2 := by
   cases op with
   | get => rw [opStep_get, opStep_get]; cases s with
     | none => exact ⟨rfl, rfl⟩
@@ -100,29 +109,29 @@ theorem opStep_const (d : Option α) (c c' : Nat) (s : Slot α) (op : Op α) :
       | some x => exact ⟨rfl, rfl⟩
 
 theorem solo_const (d : Option α) (c c' : Nat) (s : Slot α) (ops : List (Op α)) :
-    solo (fun _ => d) c s ops = solo (fun _ => d) c' s ops := by
+    solo (fun _ => some d) c s ops = solo (fun _ => some d) c' s ops := by
   induction ops generalizing c c' s with
   | nil => rfl
   | cons op ops ih =>
     obtain ⟨h1, h2⟩ := opStep_const d c c' s op
     simp only [solo]
-    rw [h1, h2, ih (opStep (fun _ => d) c s op).2.1 (opStep (fun _ => d) c' s op).2.1]
+    rw [h1, h2, ih (opStep (fun _ => some d) c s op).2.1 (opStep (fun _ => some d) c' s op).2.1]
 
 /-! ### the machine of all threads -/
 
 variable {κ : Type} [DecidableEq κ]
 
 /-- frame: an operation of thread `u` leaves every slot with another key unchanged -/
-theorem stepK_frame (key : Thr → κ) (dp : Nat → Option α) (S : St κ α) (u : Thr) (op : Op α) (k : κ)
+theorem stepK_frame (key : Thr → κ) (dp : Nat → Option (Option α)) (S : St κ α) (u : Thr) (op : Op α) (k : κ)
     (h : k ≠ key u) : (stepK key dp S (u, op)).1.store k = S.store k := by
   simp [stepK, h]
 
-theorem stepK_own (key : Thr → κ) (dp : Nat → Option α) (S : St κ α) (u : Thr) (op : Op α) :
+theorem stepK_own (key : Thr → κ) (dp : Nat → Option (Option α)) (S : St κ α) (u : Thr) (op : Op α) :
     (stepK key dp S (u, op)).1.store (key u) = (opStep dp S.calls (S.store (key u)) op).1 := by
   simp [stepK]
 
 /-- a key that no acting thread has is never written -/
-theorem runK_untouched (key : Thr → κ) (dp : Nat → Option α) (gs : List (Thr × Op α)) (S : St κ α) (k : κ)
+theorem runK_untouched (key : Thr → κ) (dp : Nat → Option (Option α)) (gs : List (Thr × Op α)) (S : St κ α) (k : κ)
     (h : ∀ te ∈ gs, key te.1 ≠ k) : (runK key dp S gs).1.store k = S.store k := by
   induction gs generalizing S with
   | nil => rfl
@@ -134,13 +143,13 @@ theorem runK_untouched (key : Thr → κ) (dp : Nat → Option α) (gs : List (T
 
 /-- every interleaving projects to the solo runs (constant provider) -/
 theorem run_proj (d : Option α) (gs : List (Thr × Op α)) (S : St Thr α) (t : Thr) :
-    ((runT (fun _ => d) S gs).1.store t, projRes t (runT (fun _ => d) S gs).2) =
-      solo (fun _ => d) 0 (S.store t) (projOps t gs) := by
+    ((runT (fun _ => some d) S gs).1.store t, projRes t (runT (fun _ => some d) S gs).2) =
+      solo (fun _ => some d) 0 (S.store t) (projOps t gs) := by
   induction gs generalizing S with
   | nil => rfl
   | cons te rest ih =>
     obtain ⟨u, op⟩ := te
-    have ih' := ih (stepK id (fun _ => d) S (u, op)).1
+    have ih' := ih (stepK id (fun _ => some d) S (u, op)).1
     simp only [runT] at ih' ⊢
     simp only [runK]
     by_cases h : u = t
@@ -148,23 +157,23 @@ theorem run_proj (d : Option α) (gs : List (Thr × Op α)) (S : St Thr α) (t :
       simp only [projRes, projOps, List.filterMap_cons, if_true] at ih' ⊢
       rw [Prod.mk.injEq] at ih' ⊢
       simp only [solo]
-      have hs : (stepK id (fun _ => d) S (u, op)).1.store u = (opStep (fun _ => d) S.calls (S.store u) op).1 :=
-        stepK_own id (fun _ => d) S u op
-      have hr : (stepK id (fun _ => d) S (u, op)).2 = (opStep (fun _ => d) S.calls (S.store u) op).2.2 := by
+      have hs : (stepK id (fun _ => some d) S (u, op)).1.store u = (opStep (fun _ => some d) S.calls (S.store u) op).1 :=
+        stepK_own id (fun _ => some d) S u op
+      have hr : (stepK id (fun _ => some d) S (u, op)).2 = (opStep (fun _ => some d) S.calls (S.store u) op).2.2 := by
         simp [stepK]
       obtain ⟨k1, k2⟩ := opStep_const d S.calls 0 (S.store u) op
       rw [hs, k1] at ih'
-      rw [solo_const d _ (opStep (fun _ => d) 0 (S.store u) op).2.1] at ih'
+      rw [solo_const d _ (opStep (fun _ => some d) 0 (S.store u) op).2.1] at ih'
       refine ⟨ih'.1, ?_⟩
       rw [ih'.2, hr, k2]
-    · have hs : (stepK id (fun _ => d) S (u, op)).1.store t = S.store t :=
-        stepK_frame id (fun _ => d) S u op t (fun e => h e.symm)
+    · have hs : (stepK id (fun _ => some d) S (u, op)).1.store t = S.store t :=
+        stepK_frame id (fun _ => some d) S u op t (fun e => h e.symm)
       simp only [projRes, projOps, List.filterMap_cons, h, if_false] at ih' ⊢
       rw [hs] at ih'
       exact ih'
 
 /-- a store keyed by an injective key behaves as the store keyed by the thread object -/
-theorem runK_injective (key : Thr → κ) (hinj : ∀ a b, key a = key b → a = b) (dp : Nat → Option α)
+theorem runK_injective (key : Thr → κ) (hinj : ∀ a b, key a = key b → a = b) (dp : Nat → Option (Option α))
     (gs : List (Thr × Op α)) (SK : St κ α) (S : St Thr α)
     (hS : ∀ t, SK.store (key t) = S.store t) (hc : SK.calls = S.calls) :
     (runK key dp SK gs).2 = (runT dp S gs).2 ∧
